@@ -9,6 +9,7 @@ import (
 	"go/format"
 	"os"
 	"regexp"
+	"sort"
 	"strings"
 	"time"
 
@@ -189,7 +190,11 @@ func Main(tier, replay string) {
 					}
 					if formatted, err := format.Source([]byte(src)); err != nil || string(formatted) != src {
 						kind := "other"
-						if err == nil && strings.ReplaceAll(string(formatted), "\n\n", "\n") == src {
+						if os.Getenv("VERIF_DEBUG") != "" {
+							os.WriteFile("/dev/shm/c09-src-"+e+".go", []byte(src), 0o644)
+							os.WriteFile("/dev/shm/c09-fmt-"+e+".go", formatted, 0o644)
+						}
+						if err == nil && sameLinesModuloBlankAndOrder(string(formatted), src) {
 							kind = "only-blank-lines-collapsed"
 						}
 						run.Report(core.Violation{Oracle: "routes-file-is-gofmt-formatted", Features: map[string]string{"engine": e, "difference": kind}, What: e + ": the written file is not what gofmt would produce: " + firstDiff(src, string(formatted)), Case: c})
@@ -262,4 +267,26 @@ func firstDiff(a, b string) string {
 		}
 	}
 	return fmt.Sprintf("%d vs %d lines", len(al), len(bl))
+}
+
+// sameLinesModuloBlankAndOrder: the two texts consist of the same non-blank lines; only blank lines differ and,
+// as a consequence of merged import groups, the order of import lines.
+func sameLinesModuloBlankAndOrder(a, b string) bool {
+	norm := func(s string) string {
+		var body, imports []string
+		for _, l := range strings.Split(s, "\n") {
+			t := strings.TrimSpace(l)
+			if t == "" {
+				continue
+			}
+			if strings.HasSuffix(t, "\"") && (strings.HasPrefix(t, "\"") || strings.Contains(t, " \"")) && !strings.Contains(t, "(") {
+				imports = append(imports, t)
+				continue
+			}
+			body = append(body, l)
+		}
+		sort.Strings(imports)
+		return strings.Join(body, "\n") + "\n--imports--\n" + strings.Join(imports, "\n")
+	}
+	return norm(a) == norm(b)
 }
